@@ -25,6 +25,20 @@ pub proof fn lemma_flags_meaning(f: ZipFileData)
     assert((0u16 | (1u16 << 0)) & 0x0800 == 0 && (0u16 | (1u16 << 0)) & 1 == 1 && (0u16 | (1u16 << 0)) & 8 == 0 && (0u16 | (1u16 << 0)) & !0x0801u16 == 0) by(bit_vector);
     assert((0u16 | 0u16) & 0x0800 == 0 && (0u16 | 0u16) & 1 == 0 && (0u16 | 0u16) & 8 == 0 && (0u16 | 0u16) & !0x0801u16 == 0) by(bit_vector);
 }
+// the central header also says whether the entry (one taken over by new_append: this writer emits none of its own) has a data
+// descriptor behind its data - bit 3, as in the entry's untouched local header (F35: the Info-ZIP ZipCrypto check byte hangs on it)
+pub open spec fn cflags_of(f: ZipFileData) -> u16 { flags_of(f) | (if f.using_data_descriptor { 1u16 << 3 } else { 0u16 }) }
+pub proof fn lemma_cflags_meaning(f: ZipFileData)
+    ensures (cflags_of(f) & 0x0800 != 0) == !f.file_name.is_ascii(), (cflags_of(f) & 1 == 1) == f.encrypted,
+        (cflags_of(f) & (1u16 << 3) != 0) == f.using_data_descriptor,
+        (cflags_of(f) & (1u16 << 11) != 0) == (flags_of(f) & (1u16 << 11) != 0)
+{
+    lemma_flags_meaning(f);
+    let fl = flags_of(f);
+    assert(fl & !0x0801u16 == 0 ==> ((fl | (1u16 << 3)) & 0x0800 != 0) == (fl & 0x0800 != 0) && ((fl | (1u16 << 3)) & 1) == (fl & 1)
+        && (fl | (1u16 << 3)) & (1u16 << 3) != 0 && (fl | 0u16) == fl && fl & (1u16 << 3) == 0
+        && (fl & (1u16 << 11) != 0) == (fl & 0x0800 != 0) && ((fl | (1u16 << 3)) & (1u16 << 11) != 0) == (fl & 0x0800 != 0)) by(bit_vector);
+}
 pub open spec fn dt_time(t: DateTime) -> u16 { dos_time(t.hour, t.minute, t.second) }
 pub open spec fn dt_date(t: DateTime) -> u16 { dos_date(t.year, t.month, t.day) }
 pub open spec fn lfh_of(f: ZipFileData, nd: u16) -> Lfh {
@@ -40,7 +54,7 @@ pub open spec fn z64c_of(f: ZipFileData) -> Seq<u8> {
                     f.uncompressed_size, f.compressed_size, f.header_start)
 }
 pub open spec fn cdh_of(f: ZipFileData, nd: u16) -> Cdh {
-    Cdh { made_by: (system_code(f.system) << 8) | (f.version_made_by as u16), needed: nd, flags: flags_of(f),
+    Cdh { made_by: (system_code(f.system) << 8) | (f.version_made_by as u16), needed: nd, flags: cflags_of(f),
           method: method_code(f.compression_method), time: dt_time(f.last_modified_time), date: dt_date(f.last_modified_time),
           crc: f.crc32, csize32: sat32(f.compressed_size), usize32: sat32(f.uncompressed_size), disk: 0, iattr: 0,
           eattr: f.external_attributes, off32: sat32(f.header_start), name: utf8(f.file_name@),
